@@ -32,7 +32,27 @@ func verifReadFile(name string) ([]byte, error) {
 	if verifCfgNext.readErr {
 		return nil, errors.New("injected read fault")
 	}
-	return []byte("config"), nil
+	// the "file": a text that is the same for the same configuration and differs otherwise
+	return []byte(verifCfgText(&verifCfgNext.cfg)), nil
+}
+
+func verifCfgText(c *Config) string {
+	t := "services:\n"
+	for _, sc := range c.Services {
+		t += " - listeners:\n"
+		for _, l := range sc.Listeners {
+			t += "    - " + string(l.Type) + " " + l.Address + "\n"
+		}
+		t += "   keys:\n"
+		for _, k := range sc.Keys {
+			t += "    - " + k.ID + " " + k.Cipher + " " + k.Secret + "\n"
+		}
+	}
+	t += "keys:\n"
+	for _, k := range c.Keys {
+		t += " - " + k.ID + " " + strconv.Itoa(k.Port) + " " + k.Cipher + " " + k.Secret + "\n"
+	}
+	return t
 }
 
 func verifYAMLUnmarshal(data []byte, out any) error {
@@ -431,7 +451,7 @@ func VH_C10_reload() {
 	}}
 	step := &verifCfgStep{cfg: bad}
 	var blocker *net.TCPListener
-	fault := verifChoice("fault", 9)
+	fault := verifChoice("fault", 10)
 	switch fault {
 	case 0:
 		step.readErr = true
@@ -448,6 +468,11 @@ func VH_C10_reload() {
 		blocker, _ = net.ListenTCP("tcp", &net.TCPAddr{IP: net.IPv4(127, 0, 0, 1), Port: 9203})
 	case 6:
 		service.VerifOccupyPacket(verifL2U.addr())
+	case 9:
+		// the first service keeps the running configuration's listeners and changes their key;
+		// a later service is bad: nothing of this file may take effect
+		step.cfg.Services[0] = verifSvc([]verifLn{verifL1T, verifL1U}, verifKC("bad-1", verifKeys[1]))
+		step.cfg.Services[1].Keys[0].Cipher = "rot13"
 	case 8:
 		// a legacy key whose port is out of range (it must not wrap around to a valid port)
 		step.cfg.Keys = append(step.cfg.Keys, LegacyKeyServiceConfig{KeyConfig: verifKC("legacy", verifKeys[0]), Port: 65536 + 9204})
@@ -465,6 +490,12 @@ func VH_C10_reload() {
 	}
 	// still exactly g1; in particular nothing of the failed configuration is listening
 	verifCheckState("C10.after-failed-reload", sm, &g1, all, verifKeys)
+	if fault == 5 || fault == 6 {
+		// the obstacle is gone: the very same file now loads and is served completely
+		verifAssert("C10.same-file-loads-once-the-address-is-free", verifLoadCfg(s, &verifCfgStep{cfg: bad}) == nil)
+		verifCheckState("C10.after-retry-of-the-same-file", sm, &bad, all, verifKeys)
+		verifReach("C10.same-file-retried", true)
+	}
 	verifAssert("C10.failed-generation-not-running", verifBlockedIn("runConfig") == 1)
 	verifReach("C10.failed-reload-checked", true)
 
@@ -476,6 +507,8 @@ func VH_C10_reload() {
 	g4 := Config{Services: []ServiceConfig{verifSvc([]verifLn{verifL1T}, verifKC("g4", verifKeys[0]))}}
 	verifAssert("C10.second-good-reload-ok", verifLoadCfg(s, &verifCfgStep{cfg: g4}) == nil)
 	verifCheckState("C10.after-second-good-reload", sm, &g4, all, verifKeys)
+	// (C09 after a history of reloads: who authenticates where is decided by the loaded configuration alone)
+	verifCheckState("C09.after-reloads", sm, &g4, all[:5], verifKeys)
 	verifAssert("C10.stop-ok", s.Stop() == nil)
 	verifQuiesce()
 	verifCheckState("C10.after-stop", sm, &Config{}, all, verifKeys[:1])
@@ -844,4 +877,28 @@ func VH_C07_configured_history() {
 	verifAssert("C07.configured.stop-ok", s.Stop() == nil)
 	verifQuiesce()
 	verifReach("C07.configured.done", true)
+}
+
+// C11 / C10: a reload that removes the first key and renumbers the rest (the id of the removed key
+// now names another secret): the secret present in both configurations keeps authenticating, the
+// removed one stops
+func VH_C11_id_reused_for_another_secret() {
+	sm := &verifSvcMetrics{}
+	s := verifNewServer(sm)
+	a, b := verifKeys[0], verifKeys[2] // same cipher, different secrets
+	g1 := Config{Services: []ServiceConfig{verifSvc([]verifLn{verifL1T, verifL1U}, verifKC("user-0", a), verifKC("user-1", b))}}
+	g2 := Config{Services: []ServiceConfig{verifSvc([]verifLn{verifL1T, verifL1U}, verifKC("user-0", b))}}
+	verifAssert("C11.renumbered.first-load-ok", verifLoadCfg(s, &verifCfgStep{cfg: g1}) == nil)
+	up, auth, id := verifProbeTCP(sm, 9201, b)
+	verifAssert("C11.renumbered.before", up && auth && id == "user-1")
+	verifAssert("C11.renumbered.reload-ok", verifLoadCfg(s, &verifCfgStep{cfg: g2}) == nil)
+	up, auth, id = verifProbeTCP(sm, 9201, b)
+	verifAssert("C11.renumbered.key-in-both-configurations-still-authenticates", up && auth && id == "user-0")
+	up, auth, id = verifProbeUDP(sm, verifL1U.addr(), b)
+	verifAssert("C11.renumbered.key-in-both-configurations-still-authenticates-udp", up && auth && id == "user-0")
+	up, auth, _ = verifProbeTCP(sm, 9201, a)
+	verifAssert("C10.renumbered.removed-key-stops-authenticating", up && !auth)
+	verifAssert("C11.renumbered.stop-ok", s.Stop() == nil)
+	verifQuiesce()
+	verifReach("C11.renumbered.done", true)
 }
